@@ -686,6 +686,10 @@ impl<'a> Gen<'a> {
         for k in 0..4 {
             user.push_str(&format!("{}fn leaf{k}(x: i32) -> i32\n{{\n\treturn: x + {k}\n}}\n\n", combos[(k + rot) % 4]));
         }
+        // constants live in a namespace of their own: two of them carry the names of two of the leaf functions
+        // (the functions must still be defined under their own names)
+        let shared = r.below(4);
+        user.push_str(&format!("const leaf{shared}: i32 = 10;\nconst leaf{}: i32 = 20;\n\n", (shared + 1) % 4));
         let entry_flags = if entry == "main" { combos[r.below(4)] } else { combos[1 + 2 * r.below(2)] };
         user.push_str(&format!("{entry_flags}fn {entry}() -> i32\n{{\n{locals}"));
         user.push_str(&format!("\tvar p = {};\n", lit(&mut r, "Packet", "m", &smembers, false)));
@@ -712,8 +716,10 @@ impl<'a> Gen<'a> {
         user.push_str(&format!("\to.word = {};\n", lit(&mut r, "Wd", "w", wmembers, false)));
         user.push_str("\tw = f;\n\to.word = w;\n");
         user.push_str("\tvar t = tag_of(o) as i32 + tag_of(c) as i32;\n");
-        user.push_str("\tt = leaf0(t) + leaf1(1) + leaf2(2) - leaf3(3) - 3;\n");
+        user.push_str(&format!("\tt = leaf0(t) + leaf1(1) + leaf2(2) - leaf3(3) - 3 + leaf{shared} - 10;\n"));
         user.push_str("\tw = DEFAULT_WORD;\n");
+        // a formatted text kept in a variable and printed later (an array view coerced into an array view)
+        user.push_str("\tvar text = format!(\"t=\", t, \";\");\n\tprint!(text, \"\\n\");\n");
         user.push_str("\treturn: t\n}\n");
         let mods = if two_modules {
             vec![
@@ -752,6 +758,19 @@ impl<'a> Gen<'a> {
         let s = "fn main() -> i32\r\n{\r\n\tvar x: i32 = 1;\r\n\r\n\r\n\r\n@\r\n\treturn: x\r\n}\r\n".to_string();
         let start = s.chars().position(|c| c == '@').unwrap();
         add("crlf-char", s, Some(json!({"m": 1, "code": 110, "start": start, "end": start + 1, "line": 7, "crlf": true})));
+        // structure cycles through a chain of n constants, the structure at every position of the file: the
+        // diagnostic names one constant of the cycle and points at it -- always the same one
+        for n in 2..=4usize {
+            for pos in 0..=n {
+                let mut decls: Vec<String> = Vec::new();
+                for k in 1..=n {
+                    decls.push(if k == 1 { "const K1: usize = |:Packet|;\n".to_string() } else { format!("const K{k}: usize = K{} + 8;\n", k - 1) });
+                }
+                decls.insert(pos, format!("struct Packet\n{{\n\tpayload: [K{n}]u8,\n\ttag: u8,\n}}\n"));
+                let src = format!("{}\nfn main() -> i32\n{{\n\treturn: 0\n}}\n", decls.join("\n"));
+                add(&format!("cycle-{n}-{pos}"), src, None);
+            }
+        }
         // end of file
         add("eof-open-brace", "fn main()\n{".to_string(), None);
         add("eof-no-newline", "fn main() -> i32\n{\n\treturn: 1 +".to_string(), None);
